@@ -43,7 +43,7 @@ def strategy(tier):
 
 def run_case(case, cx):
     m, m2, cfg = case["model"], case["mutant"], case["cfg"]
-    d, b1, b2 = pairs.build_pair(cx, m, m2, cfg, nodebug_tus=tuple(case["nodebug"]))
+    d, b1, b2 = pairs.build_pair(cx, m, m2, cfg, nodebug_tus=tuple(case["nodebug"]), sonames=case.get("sonames"))
     sup = []
     if case["suppr"]:
         sp = d + "/s.suppr"
